@@ -152,6 +152,11 @@ def run(ctx, rep):
     cursor(ctx, rep)
     wiresig(ctx, rep)
 
+    from ..rejects import run_rejects
+    rep.rules_text.append("REJECT-LEDGER: every constant-bound rejection of a stream-derived field in the readers (a branch outcome that only reaches failing returns on `field op constant`) is listed in the frozen ledger rules/rejects.json; a new one narrows what the reader accepts")
+    n_rej = run_rejects(ctx, rep, "REJECT-LEDGER", ("/draco/compression/", "/draco/core/"))
+    rep.floor("constant-bound rejections inspected", n_rej, 25)
+
 
 def selectors_agree(ctx, rep):
     """Derived (not stored) format decisions agree between writer and reader."""
